@@ -12,11 +12,17 @@ import (
 
 	"github.com/cosmos/cosmos-sdk/store/prefix"
 	sdk "github.com/cosmos/cosmos-sdk/types"
+	authtypes "github.com/cosmos/cosmos-sdk/x/auth/types"
+	"github.com/ethereum/go-ethereum/crypto"
 
 	mhub2 "github.com/MinterTeam/mhub2/module/x/mhub2"
 	"github.com/MinterTeam/mhub2/module/x/mhub2/keeper"
 	"github.com/MinterTeam/mhub2/module/x/mhub2/types"
 )
+
+// votesHeights (suite votesh): claims carry their external height in the operation, the observation ends with the
+// stored last observed external height
+var votesHeights = false
 
 const votesCoin = "0xc0c0c0c0c0c0c0c0c0c0c0c0c0c0c0c0c0c0c0c0"
 
@@ -43,6 +49,10 @@ func observeVotes(env *Env) V {
 		lasts = append(lasts, L(B(sdk.ValAddress(it.Key()).String()), U(binary.BigEndian.Uint64(it.Value()))))
 	}
 	it.Close()
+	if votesHeights {
+		return L(L(recs...), U(env.K.GetLastObservedEventNonce(ctx, cid)), Set(lasts...), Z(env.Bank.GetSupply(ctx, "hub").Amount.BigInt()),
+			U(env.K.GetLastObservedExternalBlockHeight(ctx, cid).ExternalHeight))
+	}
 	return L(L(recs...), U(env.K.GetLastObservedEventNonce(ctx, cid)), Set(lasts...), Z(env.Bank.GetSupply(ctx, "hub").Amount.BigInt()))
 }
 
@@ -64,10 +74,34 @@ func runVotesCase(seed uint64, nOps int, restart bool, stats map[string]int) (V,
 		ops = append(ops, op)
 		outs = append(outs, L(I(code), observeVotes(env)))
 	}
-	// power profiles: equal, one dominant, tiny totals (threshold rounding), random
+	// every orchestrator account that was ever registered, with its validator (the orchestrator index keeps the
+	// entries of earlier registrations: known finding C16/attribution-after-reregistration)
+	type orchReg struct {
+		orch sdk.AccAddress
+		val  int
+	}
+	var orchs []orchReg
+	for i := 0; i < nOrch; i++ {
+		orchs = append(orchs, orchReg{orchAddr(i), i})
+	}
+	for i := 0; i < nVals; i++ {
+		env.Acc.SetAccount(env.Ctx, authtypes.NewBaseAccount(sdk.AccAddress(valAddr(i)), nil, uint64(100+i), 0))
+	}
+	rotations := 0
+	emitStaking := func() {
+		var sv, ov []V
+		for _, v := range env.Staking.Vals {
+			sv = append(sv, L(B(v.Oper.String()), B(sdk.AccAddress(v.Oper).String()), I(v.Power), Bool(v.Bonded)))
+		}
+		for _, o := range orchs {
+			ov = append(ov, L(B(o.orch.String()), B(valAddr(o.val).String())))
+		}
+		record(L(I(3), L(sv...), L(ov...)), 0)
+	}
+	// power profiles: equal, one dominant, tiny totals (threshold rounding), huge totals (66*total beyond int64), random
 	setStaking := func() {
 		env.Staking.Vals = nil
-		profile := rng.Intn(5)
+		profile := rng.Intn(6)
 		for i := 0; i < nVals; i++ {
 			var p int64
 			switch profile {
@@ -83,19 +117,15 @@ func runVotesCase(seed uint64, nOps int, restart bool, stats map[string]int) (V,
 				}
 			case 3:
 				p = int64(30 + rng.Intn(8))
+			case 4:
+				// a stake token with 18 decimals: consensus powers around 10^17 (the total still fits int64)
+				p = int64(20000000000000000) + int64(rng.Intn(1000000))*int64(100000000000)
 			default:
 				p = int64(1 + rng.Intn(1000000))
 			}
 			env.Staking.Vals = append(env.Staking.Vals, ValIn{Oper: valAddr(i), Power: p, Bonded: !rng.Chance(1, 8)})
 		}
-		var sv, ov []V
-		for _, v := range env.Staking.Vals {
-			sv = append(sv, L(B(v.Oper.String()), B(sdk.AccAddress(v.Oper).String()), I(v.Power), Bool(v.Bonded)))
-		}
-		for i := 0; i < nOrch; i++ {
-			ov = append(ov, L(B(orchAddr(i).String()), B(valAddr(i).String())))
-		}
-		record(L(I(3), L(sv...), L(ov...)), 0)
+		emitStaking()
 	}
 	setStaking()
 
@@ -104,7 +134,7 @@ func runVotesCase(seed uint64, nOps int, restart bool, stats map[string]int) (V,
 	// the honest event log: event n has variant 0; other variants are conflicting claims
 	mkEvent := func(nonce uint64, variant int) *types.SendToHubEvent {
 		return &types.SendToHubEvent{EventNonce: nonce, ExternalCoinId: votesCoin, Amount: sdk.NewInt(int64(1000*nonce) + int64(variant)),
-			Sender: ethAddrOf(0xe0, 0), CosmosReceiver: userAddr(0).String(), ExternalHeight: extH + nonce, TxHash: fmt.Sprintf("0xv%d", nonce)}
+			Sender: ethAddrOf(0xe0, 0), CosmosReceiver: userAddr(0).String(), ExternalHeight: extH + 10*nonce + uint64(variant), TxHash: fmt.Sprintf("0xv%d", nonce)}
 	}
 	progress := make([]uint64, nVals) // last nonce each validator voted (generator's view)
 	for len(ops) < nOps {
@@ -117,6 +147,23 @@ func runVotesCase(seed uint64, nOps int, restart bool, stats map[string]int) (V,
 			}
 			stats[fmt.Sprintf("restart_code%d", code)]++
 			record(L(I(4)), code)
+			// only the current registration of a validator is exported (known finding C15/lost:delegate-keys): the
+			// orchestrators of its earlier registrations are no longer attributed after the restart
+			if code == 0 && rotations > 0 {
+				var cur []orchReg
+				for i := 0; i < nVals; i++ {
+					for k := len(orchs) - 1; k >= 0; k-- {
+						if orchs[k].val == i {
+							cur = append(cur, orchs[k])
+							break
+						}
+					}
+				}
+				if len(cur) != len(orchs) {
+					orchs = cur
+					emitStaking()
+				}
+			}
 			continue
 		}
 		switch {
@@ -152,14 +199,18 @@ func runVotesCase(seed uint64, nOps int, restart bool, stats map[string]int) (V,
 			signer := sdk.AccAddress(valAddr(vi))
 			switch rng.Intn(8) {
 			case 0:
-				if vi < nOrch {
-					signer = orchAddr(vi)
+				// one of this validator's orchestrators (the latest registration first)
+				for k := len(orchs) - 1; k >= 0; k-- {
+					if orchs[k].val == vi {
+						signer = orchs[k].orch
+						break
+					}
 				}
 			case 1:
 				signer = userAddr(rng.Intn(3)) // not a validator
 			case 2:
-				if nOrch > 0 {
-					signer = orchAddr(rng.Intn(nOrch))
+				if len(orchs) > 0 {
+					signer = orchs[rng.Intn(len(orchs))].orch
 				}
 			}
 			any, _ := types.PackEvent(ev)
@@ -174,13 +225,22 @@ func runVotesCase(seed uint64, nOps int, restart bool, stats map[string]int) (V,
 			if code == 0 {
 				// find which validator that was
 				for i := 0; i < nVals; i++ {
-					if signer.Equals(sdk.AccAddress(valAddr(i))) || (i < nOrch && signer.Equals(orchAddr(i))) {
+					if signer.Equals(sdk.AccAddress(valAddr(i))) {
 						progress[i] = nonce
+					}
+				}
+				for _, o := range orchs {
+					if signer.Equals(o.orch) {
+						progress[o.val] = nonce
 					}
 				}
 			}
 			stats[fmt.Sprintf("vote_code%d", code)]++
-			record(L(I(1), B(signer.String()), U(nonce), Bb(ev.Hash()), Z(new(big.Int).Set(ev.Amount.BigInt()))), code)
+			if votesHeights {
+				record(L(I(1), B(signer.String()), U(nonce), Bb(ev.Hash()), Z(new(big.Int).Set(ev.Amount.BigInt())), U(ev.ExternalHeight)), code)
+			} else {
+				record(L(I(1), B(signer.String()), U(nonce), Bb(ev.Hash()), Z(new(big.Int).Set(ev.Amount.BigInt()))), code)
+			}
 		case c < 90:
 			height++
 			env.Ctx = env.Ctx.WithBlockHeight(height)
@@ -189,6 +249,30 @@ func runVotesCase(seed uint64, nOps int, restart bool, stats map[string]int) (V,
 			after := env.K.GetLastObservedEventNonce(env.Ctx, "ethereum")
 			stats[fmt.Sprintf("tally_applied_%d", after-before)]++
 			record(L(I(2)), code)
+		case c < 94:
+			// key rotation: the validator registers a new orchestrator and a new external key (a real, signed
+			// MsgDelegateKeys); its votes so far and its position in the event sequence are untouched by that
+			vi := rng.Intn(nVals)
+			rotations++
+			key := ethKey(40 + int(seed%7)*8 + rotations)
+			orch := orchAddr(16 + rotations)
+			signMsg := keeper.MakeTestMarshaler().MustMarshal(&types.DelegateKeysSignMsg{ValidatorAddress: valAddr(vi).String(), Nonce: 0})
+			sig, err := types.NewEthereumSignature(crypto.Keccak256Hash(signMsg).Bytes(), key)
+			if err != nil {
+				panic(err)
+			}
+			msg := &types.MsgDelegateKeys{ValidatorAddress: valAddr(vi).String(), OrchestratorAddress: orch.String(),
+				ExternalAddress: crypto.PubkeyToAddress(key.PublicKey).Hex(), EthSignature: sig, ChainId: "ethereum"}
+			code, m := env.Tx(nil, func(ctx sdk.Context) error {
+				_, err := env.Msg.SetDelegateKeys(sdk.WrapSDKContext(ctx), msg)
+				return err
+			})
+			if code != 0 {
+				panic("harness: key rotation refused: " + m)
+			}
+			orchs = append(orchs, orchReg{orch, vi})
+			stats["key_rotations"]++
+			emitStaking()
 		default:
 			setStaking()
 		}
